@@ -52,7 +52,7 @@ plotgen.PAYLOADS["pestle"] = _payload_pestle
 @st.composite
 def cases(draw, tier="quick"):
     nu = draw(st.sampled_from([True, True, False]))
-    spec = draw(plotgen.plot_specs(ndims=3, min_levels=draw(st.sampled_from([2, 1, 2, 3])), max_levels=4,
+    spec = draw(plotgen.plot_specs(level_prefix=True, ndims=3, min_levels=draw(st.sampled_from([2, 1, 2, 3])), max_levels=4,
                                    max_cells=2000 if tier == "quick" else 6000, force_no_unit=nu,
                                    fields=["q"], payload_kinds=("coded",), origin=True, aniso=True))
     m = spec["mesh"]
@@ -126,7 +126,12 @@ def run_pestle(path, field, limit, how, volfrac):
 def check_case(case, ctx):
     ctx.fresh()
     plot = plotgen.Plot(case["spec"])
-    plotgen.write(plot, "src")
+    from ..harness import VIAS, place_plotfile
+    import zlib as _z, json as _j
+    via = VIAS[_z.crc32(_j.dumps(case["spec"]["mesh"], sort_keys=True).encode()) % len(VIAS)]
+    src = place_plotfile(lambda pth: plotgen.write(plot, pth), via)
+    if via:
+        ctx.label("path:" + via)
     labs = plot.labels()
     limit = case["limit"]
     L = plot.nlev - 1 if limit is None else limit
@@ -141,7 +146,7 @@ def check_case(case, ctx):
     what = f"(field {name}, limit {limit} passed via {case['how']}, volfrac={case['volfrac']}, volFrac field present={has_vf})"
     v = []
     try:
-        got = run_pestle("src", name, limit, case["how"], case["volfrac"])
+        got = run_pestle(src, name, limit, case["how"], case["volfrac"])
     except Exception as e:
         return [f"pestle raised {type(e).__name__}: {e} {what}"]
     tol = 1e-10 * scale + (1e-15 if case["how"] == "cli" else 0.0)
@@ -153,7 +158,7 @@ def check_case(case, ctx):
     if vi is None:
         vol = float(np.prod([plot.geo_hi[d] - plot.geo_lo[d] for d in range(3)]))
         try:
-            one = run_pestle("src", "one", limit, "argument" if case["how"] == "cli" else case["how"], False)
+            one = run_pestle(src, "one", limit, "argument" if case["how"] == "cli" else case["how"], False)
             if not abs(one - vol) <= 1e-10 * vol:
                 v.append(f"integral of the constant 1 is {one!r}, domain volume {vol!r} (limit {limit})")
         except Exception as e:
